@@ -11,8 +11,8 @@ import c18_plugin
 
 PROPERTY = 'C18'
 MANIFEST = {
- 'level_text': 'Lean 4 theorems, kernel-checked, about a model of supybot.schedule.Schedule, for every sequence of addEvent/addPeriodicEvent/removeEvent/rescheduleEvent/run/reset calls and clock advances, every program of event functions that themselves add, remove, reschedule, add periodic events or raise while running, and every way the heap resolves ties: the name invariant (heap names = keys of events, no name twice) holds in every reachable state and therefore run() never raises; registrations = fired + removed + discarded + still scheduled as multisets with pairwise distinct registration ids (each event fires at most once, a removed event never fires, everything that fired was registered); nothing fires before its due time has passed, each iteration fires an entry of minimal due time, and when run() returns nothing due is left (also events added or rescheduled into the past during the run); a fired event carries the function and arguments of its registration, also after rescheduleEvent (repaired: it dropped them), which moves exactly that entry to the new time keeping its registration; a raising function ends only its own body; a periodic wrapper with occurrences left re-registers itself at now+period whether or not its function raised. Tied to src/schedule.py by a differential run of seeded programs and operation sequences on the real Schedule object (return values/exceptions, call log, full schedule/events/counter dump after every operation; the heap\'s choices are fed to the model, which checks each is a minimum), which also evaluates the property statement directly on the implementation to produce replays.',
- 'level_note': 'Trusted: Lean kernel; axioms propext/Classical.choice/Quot.sound only; CPython heapq pops an entry of minimal due time (the model takes the implementation\'s choice and checks it is a minimum, so time order is checked per run, not proved of heapq); the correspondence harness (generator quality bounds what it sees); integer-valued virtual clock frozen during run(). Modelled: addEvent (counter, assert, partial effect of the counter increment), removeEvent, rescheduleEvent (after the repair), makePeriodicWrapper/addPeriodicEvent (finally/return semantics, count), reset, run (loop condition, pop, events.pop, except Exception). Not modelled: the lock/threads, the Scheduler plugin on top (persistence, command replay), non-Exception exceptions, event functions calling addPeriodicEvent(now=True) from inside a running event.',
+ 'level_text': 'Lean 4 theorems, kernel-checked, in two layers. (1) A model of supybot.schedule.Schedule, for every sequence of addEvent/addPeriodicEvent/removeEvent/rescheduleEvent/run/reset calls and clock advances, every program of event functions that themselves add, remove, reschedule, add periodic events or raise while running, and every way the heap resolves ties: the name invariant (heap names = keys of events, no name twice) holds in every reachable state and therefore run() never raises; registrations = fired + removed + discarded + still scheduled as multisets with pairwise distinct registration ids (each event fires at most once, a removed event never fires, everything that fired was registered); nothing fires before its due time has passed, each iteration fires an entry of minimal due time, and when run() returns nothing due is left; a fired event carries the function and arguments of its registration, also after rescheduleEvent (repaired: it dropped them), which moves exactly that entry; a raising function ends only its own body; a periodic wrapper with occurrences left re-registers itself whether or not its function raised. (2) A model of the Scheduler plugin on top (event table with its str(id)/name keys and the int-vs-str naming discipline, add/remind/remove/repeat/list, _flush and the pickle, die — repaired: it now takes the saved events out of the schedule —, _restoreEvents with kept ids and the already-scheduled test, load/unload/reload/restart, other plugins scheduling, run): an invariant of every reachable state (every scheduled closure belongs to the live instance and has its table entry, every table entry has its closure scheduled under int(key) or the name, ids ascending and below the counter, the pickle well formed), hence no command runs for a dead instance or misses its entry; reload with events pending leaves the table unchanged and schedules exactly one entry per pending event. Both layers are tied to /repo by differential runs: seeded programs/operation sequences on the real Schedule object, and seeded command sequences (scheduler add/remind/remove/repeat/list, reload/unload/load Scheduler by an owner over IRC, restarts, clock advances) on a live bot with the virtual clock; the heap\'s choices are fed to the models, which check each is a minimum; the property statement is evaluated directly on the implementation (for the plugin: through the replies — every added, never removed command runs exactly once) to produce replays.',
+ 'level_note': 'Trusted: Lean kernel; axioms propext/Classical.choice/Quot.sound only; CPython heapq pops an entry of minimal due time (checked per pop, not proved of heapq); str(int)/int(str) round trip for event ids (keys are modelled as Key.id n / Key.name s); the plugin model works on the abstract schedule justified by name_invariant (heap and events dict merged); the correspondence harnesses (generator quality bounds what they see); integer-valued virtual clock frozen during run(). Modelled: schedule.py completely except the lock; plugins/Scheduler/plugin.py: add, remind (as add), remove, repeat (--delay), list, _flush, die, _restoreEvents (incl. _getNextRunIn), the command/periodic closures with the instance that made them. Not modelled: threads, unreadable or foreign pickles, old-format pickles without first_run/network, the text of the commands being replayed (C13/C14), non-Exception exceptions, event functions calling addPeriodicEvent(now=True) from inside a running event. A whole-history conservation theorem for the plugin layer (added = ran + removed + pending) is not proved; it is covered by the invariant plus the reply oracle.',
  'technique': 'Lean 4 proof (induction over operation sequences and heap choices with invariants) + differential correspondence',
  'design_ref': 'DESIGN.md §6 C18',
 }
@@ -20,7 +20,8 @@ THEOREMS = ['C18.name_invariant', 'C18.run_never_raises', 'C18.conservation', 'C
             'C18.exactly_once', 'C18.removed_never_run', 'C18.fired_at_most_once', 'C18.fired_were_registered',
             'C18.run_not_early_and_complete', 'C18.run_fires_minimum', 'C18.raise_ends_only_its_body',
             'C18.periodic_recurs', 'C18.args_preserved', 'C18.scheduled_match_registration',
-            'C18.reschedule_moves_entry']
+            'C18.reschedule_moves_entry', 'C18.plugin_invariant', 'C18.plugin_no_stale_runs',
+            'C18.reload_keeps_events', 'C18.reload_each_exactly_once', 'C18.load_restores_invariant']
 TRUSTED = ['Lean 4.33.0 kernel; axioms ⊆ {propext, Classical.choice, Quot.sound}',
            'CPython heapq.heappop returns an entry with minimal due time (mytuple compares due times only); checked on every pop of the run',
            'harness/c18.py generators, instrumentation (virtual clock, recording heapq proxy, recording addEvent/removeEvent wrappers, instrumented event functions), canonicalisation; hex line protocol']
@@ -613,12 +614,20 @@ def load_plugin_corpus():
         pass
     return out
 
+def _msg_kind(m):
+    import re
+    return re.sub(r'\d+', '#', (m or '').split(': ', 1)[-1])[:60]
+
 def shrink_plugin_case(c, budget=150):
+    """delta debugging on the middle of the op list (the closing phase stays), keeping the same kind of failure"""
     ops = c.input['plugin_ops']
-    head, body = ops[:1], ops[1:]
+    ntail = 9 if ops and ops[-1] == ['pfinal'] and len(ops) > 10 else 0
+    head, body, tail = ops[:1], ops[1:len(ops) - ntail], ops[len(ops) - ntail:]
+    want = _msg_kind(c.oracle_msg)
     def bad(o):
         try:
-            return run_plugin_case(o, 'shrink')[0].oracle_ok is False
+            c2 = run_plugin_case(o, 'shrink')[0]
+            return c2.oracle_ok is False and _msg_kind(c2.oracle_msg) == want
         except Exception:
             return False
     n = 0
@@ -628,13 +637,13 @@ def shrink_plugin_case(c, budget=150):
         while i < len(body) and n < budget:
             cand = body[:i] + body[i + chunk:]
             n += 1
-            if bad(head + cand):
+            if bad(head + cand + tail):
                 body = cand; changed = True
             else:
                 i += chunk
         if not changed or chunk == 1:
             chunk //= 2
-    c2, _ = run_plugin_case(head + body, c.kind + '-shrunk')
+    c2, _ = run_plugin_case(head + body + tail, c.kind + '-shrunk')
     if c2.oracle_ok is False:
         c2.input['unshrunk'] = ops
         return c2
